@@ -5,7 +5,7 @@
 n=$1; demo="$2"; wt=/tmp/wt/${3:-$1}; sd=/tmp/seed/$n; log=$sd/confirm.log
 cd $wt || exit 2
 export CARGO_NET_OFFLINE=true
-git checkout -q -- . ; git clean -fdq -e target -e Cargo.lock
+git checkout -q -- . ; git clean -fdq -e target -e Cargo.lock -e .cargo
 {
 echo "== seed $n in $wt at $(git rev-parse --short HEAD)"
 git apply $sd/patch.diff || { echo "RESULT patch-does-not-apply"; exit 1; }
@@ -22,6 +22,6 @@ git apply -R $sd/patch.diff || { echo "RESULT cannot-revert-patch"; exit 1; }
 echo "== [3] demo WITHOUT patch (expected: pass)"
 ( eval "$demo" ) > $sd/demo_without.log 2>&1; rc2=$?; tail -5 $sd/demo_without.log; echo "DEMO_WITHOUT_PATCH_RC=$rc2"
 if [ "$bad" = "0" ] && [ $rc1 -ne 0 ] && [ $rc2 -eq 0 ]; then echo "RESULT confirmed"; else echo "RESULT NOT-confirmed"; fi
-git checkout -q -- . ; git clean -fdq -e target -e Cargo.lock
+git checkout -q -- . ; git clean -fdq -e target -e Cargo.lock -e .cargo
 } > $log 2>&1
 tail -3 $log
